@@ -547,10 +547,15 @@ def run_property(mod, tier, seed, only=None):
             elif o["status"] == "sat":
                 n_sat += 1
                 sat_groups.setdefault((o["name"]), []).append(o)
-        # replay sat obligations (at most 3 per obligation name to bound the cost)
+        # replay sat obligations (at most 3 per obligation name to bound the cost; once a case has confirmed violations, at most 12 names of it
+        # are replayed - a broken kernel otherwise costs one float run per clause of every history in the case)
+        names_done = confirmed_in_case = 0
         for name, group in sat_groups.items():
             kf = match_known(known, cid, name)
             confirmed = None
+            if names_done >= 12 and confirmed_in_case > 0 and not kf:
+                continue
+            names_done += 1
             for o in group[:3]:
                 if not c.replay:
                     break
@@ -563,6 +568,7 @@ def run_property(mod, tier, seed, only=None):
                 if bad and not rep.get("assumption_failed"):
                     confirmed = o
                     reproduced += 1
+                    confirmed_in_case += 1
                     break
             first = group[0]
             if confirmed is not None or not c.replay:
